@@ -295,6 +295,7 @@ type calleeInfo struct {
 	fn       *ssa.Function // nil for dynamic calls
 	pkg      *types.Package
 	dynamic  bool
+	selfTerm Term // func value of a dynamic call ("" otherwise)
 }
 
 var defaultContract = &FuncContract{Loops: map[int]*LoopContract{}}
@@ -581,6 +582,7 @@ func (fc *FnCtx) call(x *ssa.Call) Val {
 	if ci.dynamic && !common.IsInvoke() {
 		fv := fc.term(common.Value)
 		fc.nilCheck(fv, "call of nil func value")
+		ci.selfTerm = fv // `self` in a dyn: contract names the func value that is called
 	}
 	if common.IsInvoke() {
 		fc.nilCheck(fc.asTerm(args[0], common.Value.Type()), "method call on nil interface")
@@ -743,6 +745,9 @@ func (fc *FnCtx) applyContract(ci *calleeInfo, args []Val, writes map[string]boo
 			envPre.vars[n] = ev
 		}
 		envPre.vars[fmt.Sprintf("arg%d", i)] = ev
+	}
+	if ci.selfTerm != "" {
+		envPre.vars["self"] = EV{ci.selfTerm, SInt, nil}
 	}
 	// variadic: last parameter is a slice already in SSA
 	what := "call " + ci.key
